@@ -249,6 +249,17 @@ Definition parse_int (s : string) : option Z :=
   | String "-"%char r => match r with EmptyString => None | _ => option_map Z.opp (parse_digits r 0) end
   | _ => parse_digits s 0 end.
 
+Definition is_lower (c : ascii) : bool := let n := nat_of_ascii c in (97 <=? n)%nat && (n <=? 122)%nat.
+Definition is_ident_char (c : ascii) : bool :=
+  let n := nat_of_ascii c in
+  ((97 <=? n)%nat && (n <=? 122)%nat) || ((65 <=? n)%nat && (n <=? 90)%nat) || ((48 <=? n)%nat && (n <=? 57)%nat) || (n =? 95)%nat.
+Definition safe_attr (s : string) : bool :=
+  (* names that cannot be attributes of builtin values: at most two characters, k<digit>..., or not an identifier *)
+  match s with
+  | EmptyString | String _ EmptyString | String _ (String _ EmptyString) => negb (String.eqb s "__")
+  | String "k"%char (String d _) => match digit_of d with Some _ => true | None => negb (forallb is_ident_char (list_ascii_of_string s)) end
+  | _ => negb (forallb is_ident_char (list_ascii_of_string s)) end.
+
 Inductive coerced := CInt (z : Z) | CErr (cls : string).
 Definition py_int (v : val) : coerced :=
   match v with
